@@ -13,8 +13,8 @@ MOD = __name__
 
 RULE = ("exhaustive product: old name {absent, present, active} x new name {absent, present, active, same as old} x bystander "
         "{none, one, one active} x fault step {none, LISTSCRIPTS, GETSCRIPT, PUTSCRIPT, SETACTIVE, DELETESCRIPT} x fault kind "
-        "{NO, BYE, silence} x script bodies {LF, CRLF, no final newline, empty, non-ASCII, protocol look-alike, Unicode line-break "
-        "characters} x 3 reply-encoding patterns x plain / special-character names x unsegmented / one-byte recv() x bystander listed "
+        "{NO, BYE, silence; NO with a response code (QUOTA*, ACTIVE, NONEXISTENT, ALREADYEXISTS, TRYLATER) once or persisting for every later command of that kind} x script bodies {LF, CRLF, no final newline, empty, non-ASCII, protocol look-alike, Unicode line-break "
+        "characters} x 3 reply-encoding patterns x plain / special-character / ACTIVE-look-alike names x unsegmented / one-byte recv() x bystander listed "
         "before / after, plus every single cut in the first 160 reply bytes for the fault-free states, against the reference ManageSieve server without VERSION (infeasible combinations with two active scripts "
         "skipped); oracle on the server's store before/after. Non-trivial = a fault is injected or the new name pre-exists.")
 
@@ -31,6 +31,9 @@ NAMESETS = {
     "plain": (b"old-script", b"new-script", b"other"),
     "special": ('old "q\\s {3}'.encode("utf-8"), 'new\\b "x \u00e9'.encode("utf-8"), "by ACTIVE \u20ac".encode("utf-8")),
 }
+# names that merely look like the ACTIVE marker of a listing line
+NAMESETS["activeish"] = (b"active_old", b"Active-new", b"ACTIVE")
+NAMESETS["activeish2"] = (b"ACTIVE", b"active", b"old ACTIVE")
 NAMESETS["new-special"] = (NAMESETS["plain"][0], NAMESETS["special"][1], NAMESETS["plain"][2])
 NAMESETS["old-special"] = (NAMESETS["special"][0], NAMESETS["plain"][1], NAMESETS["special"][2])
 OLD, NEW, BY = NAMESETS["plain"]
@@ -38,6 +41,11 @@ NEWBODY = b"# the pre-existing target\r\nstop;\r\n"
 BYBODY = b"# bystander\r\ndiscard;\r\n"
 STEPS = [None, b"LISTSCRIPTS", b"GETSCRIPT", b"PUTSCRIPT", b"SETACTIVE", b"DELETESCRIPT"]
 KINDS = ["NO", "BYE", "SILENCE"]
+# refusals that carry a response code and persist for every later command of the same kind
+# (an account over quota, a script that stays active, ...)
+CODED = [(b"PUTSCRIPT", "NO:QUOTA/MAXSIZE"), (b"PUTSCRIPT", "NO:QUOTA"), (b"PUTSCRIPT", "NO:QUOTA/MAXSCRIPTS"), (b"PUTSCRIPT", "NO:ALREADYEXISTS"),
+         (b"DELETESCRIPT", "NO:ACTIVE"), (b"DELETESCRIPT", "NO:NONEXISTENT"), (b"SETACTIVE", "NO:NONEXISTENT"), (b"GETSCRIPT", "NO:NONEXISTENT"),
+         (b"PUTSCRIPT", "NO:TRYLATER"), (b"LISTSCRIPTS", "NO:TRYLATER")]
 
 
 def cases():
@@ -52,6 +60,14 @@ def cases():
         for kind in (KINDS if step else [None]):
             yield {"old": old, "new": new, "by": by, "step": step, "kind": kind, "body": body, "pattern": pat,
                    "names": names, "cap": cap, "bypos": bypos}
+    # coded refusals, first occurrence only / every occurrence
+    for old, new, by, (step, kind), occ, body, names in itertools.product(
+            ["present", "active"], ["absent", "present", "active", "same"], ["none", "one", "active"], CODED, [0, "*"],
+            ["crlf", "nofinal", "lookalike"], sorted(NAMESETS)):
+        if (old == "active") + (new == "active") + (by == "active") > 1:
+            continue
+        yield {"old": old, "new": new, "by": by, "step": step, "kind": kind, "occ": occ, "body": body, "pattern": 0,
+               "names": names, "cap": None, "bypos": "first"}
     # every placement of a single cut in the first 160 bytes the server sends during the rename
     # (the listing and the beginning of the script), fault-free
     for old, new, by, bypos, pat, cut in itertools.product(["present", "active"], ["absent", "present", "active"], ["one", "active"],
@@ -81,7 +97,7 @@ def run_case(c):
         scripts.append((NEW, NEWBODY))
         if c["new"] == "active":
             active = NEW
-    faults = [(c["step"], 0, c["kind"])] if c["step"] else []
+    faults = [(c["step"], c.get("occ", 0), c["kind"])] if c["step"] else []
     pat = c["pattern"]
     chooser = ListChooser([pat] * 64)
     srv = RefServer({"version": False, "scripts": scripts, "active": active, "faults": faults}, chooser)
